@@ -10,6 +10,8 @@ echo "== demo without patch"; (eval "$cmd") > $sd/confirm_without.log 2>&1; r0=$
 git apply $sd/patch.diff || { echo "PATCH DOES NOT APPLY"; exit 3; }
 echo "== demo with patch"; (eval "$cmd") > $sd/confirm_with.log 2>&1; r1=$?
 echo "== test suite with patch (demo files moved away)"
+# the demo may have edited tracked files (e.g. appended a `mod` line): go back to exactly patch.diff
+git checkout -q -- . ; git apply $sd/patch.diff
 # the demo must not be part of the suite run
 git status --short | grep '^??' | grep -v SEED | grep -v PROPERTY.json | grep -v '^?? target' | awk '{print $2}' > $sd/demo_files.txt
 mkdir -p $sd/.stash; while read f; do mkdir -p $sd/.stash/$(dirname $f); mv $f $sd/.stash/$f; done < $sd/demo_files.txt
